@@ -35,13 +35,17 @@ BOUND = {"EventRecord": 96, "CommitProof": 120, "CommitState": 150, "VaultCommit
          "AccountEvent": 56, "FileEvent": 120, "DeviceEvent": 48, "Header": 72, "Vault": 72,
          "SecretRow": 72, "Secret": 40, "SecretMeta": 56, "Summary": 64, "VaultMeta": 40}
 SPLIT_FIRST_BYTE = {"Secret": 18}
+HEAVY = {"Header", "Vault", "SecretMeta", "SecretRow", "Secret", "Summary"}
+EOF_DELIMITED = {"Vault": 180}
+THOROUGH_ONLY = {"SecretRow", "Vault"}
 
 
 class RtEntry:
-    def __init__(self, ty, max_len, first=None, cap=3):
+    def __init__(self, ty, max_len, first=None, cap=3, cbudget=2):
         self.ty = ty
         self.cap = cap
         self.ccap = 2
+        self.cbudget = cbudget
         self.name = "roundtrip:%s" % ty
         self.max_len = max_len
         self.first = first
@@ -60,8 +64,12 @@ class RtEntry:
                 b0 = z3.Select(inp.arr, z3.BitVecVal(0, 64))
                 ctx.add(z3.And(z3.UGE(b0, self.first[0]), z3.ULE(b0, self.first[1])))
             # the input is as long as the decoder asks for: what bounds the value space is the cap on
-            # free-length fields and on collection sizes, not an input length
-            rd = Cell(M.ReaderV(inp.arr, Int(1 << 40, 64), no_eof=True))
+            # free-length fields and on collection sizes, not an input length.  Types that read "until
+            # end of input" (Vault contents) get a real, bounded input instead.
+            if ty in EOF_DELIMITED:
+                rd = Cell(inp.reader())
+            else:
+                rd = Cell(M.ReaderV(inp.arr, Int(1 << 40, 64), no_eof=True))
             ctx.rd1 = rd
             v1 = Cell(M.default_value(eng, ctx, ty, None))
             r1 = H.poll_to_result(eng, ctx, eng.call_named(dec, [Ref(v1), Ref(rd)], None))
@@ -94,7 +102,7 @@ def consumed_bytes(res, m):
     return bytes(m.eval(z3.Select(arr, z3.BitVecVal(i, 64)), model_completion=True).as_long() for i in range(n))
 
 
-def run_entry(prog, entry, loop_bound, max_paths, prefixes=None, stop_pending=None):
+def run_entry(prog, entry, loop_bound, max_paths, prefixes=None, time_budget=None):
     out = {"entry": entry.name, "states": 0, "queries": 0, "solver_s": 0.0, "obligations": 0, "discharged": 0,
            "replays_ok": 0, "replays_bad": 0, "inconclusive": [], "gaps": {}, "reports": [], "kinds": {},
            "samples": [], "stubs": [], "values": 0}
@@ -104,6 +112,7 @@ def run_entry(prog, entry, loop_bound, max_paths, prefixes=None, stop_pending=No
     eng.field_max = entry.cap
     eng.max_input = entry.cap
     eng.collection_cap = entry.ccap
+    eng.collection_budget = entry.cbudget
     rep = Replayer("dev")
     rep.built = True
     t0 = time.time()
@@ -147,6 +156,9 @@ def run_entry(prog, entry, loop_bound, max_paths, prefixes=None, stop_pending=No
     def on_result(res):
         out["states"] += 1
         out["kinds"][res.kind] = out["kinds"].get(res.kind, 0) + 1
+        if out["states"] % 200 == 0 and os.environ.get("VERIF_PROGRESS"):
+            with open(os.environ["VERIF_PROGRESS"], "a") as pf:
+                pf.write("%s pid=%d paths=%d values=%d t=%.0fs\n" % (entry.name, os.getpid(), out["states"], out["values"], time.time() - t0))
         if res.kind == "infeasible":
             return
         if res.kind == "untranslatable":
@@ -222,7 +234,7 @@ def run_entry(prog, entry, loop_bound, max_paths, prefixes=None, stop_pending=No
                     pass
 
     try:
-        eng.explore(entry.thunk(eng), on_result=on_result, prefixes=prefixes, stop_pending=stop_pending)
+        eng.explore(entry.thunk(eng), on_result=on_result, prefixes=prefixes, time_budget=time_budget)
     except Inconclusive as e:
         out["inconclusive"].append("%s: %s" % (entry.name, e))
     rep.close()
@@ -240,20 +252,28 @@ def run_entry(prog, entry, loop_bound, max_paths, prefixes=None, stop_pending=No
 
 def entries_for(tier):
     es = []
-    cap = 16 if tier == "quick" else 48
+    cap = 16 if tier == "quick" else 32
     only = os.environ.get("VERIF_ONLY")
     for ty in TYPES:
         if only and ty not in only.split(","):
             continue
+        if ty in THOROUGH_ONLY and tier != "thorough":
+            continue
         ml = BOUND.get(ty, 32)
         if tier == "thorough":
             ml = int(ml * 1.5)
+        if ty in EOF_DELIMITED:
+            ml = EOF_DELIMITED[ty]
+        tcap, tbudget = cap, 2
+        if ty in HEAVY:
+            # composite types whose components have entries of their own: smaller bounds in the quick tier
+            tcap, tbudget = (4, 0) if tier == "quick" else (12, 1)
         if ty in SPLIT_FIRST_BYTE:
             k = SPLIT_FIRST_BYTE[ty]
             for b in range(k):
-                es.append(RtEntry(ty, ml, (b, b), cap=cap))
+                es.append(RtEntry(ty, ml, (b, b), cap=tcap, cbudget=tbudget))
         else:
-            es.append(RtEntry(ty, ml, cap=cap))
+            es.append(RtEntry(ty, ml, cap=tcap, cbudget=tbudget))
     return es
 
 
@@ -262,8 +282,9 @@ def run(tier, regenerate=True):
     entries = entries_for(tier)
     loop_bound = 48
     chk.bounds = {"loop_bound": loop_bound,
-                  "variable_length_field_max_bytes": entries[0].cap if entries else None,
+                  "variable_length_field_max_bytes": {e.name: e.cap for e in entries},
                   "collection_max_elements": entries[0].ccap if entries else None,
+                  "collection_elements_per_value_max": {e.name: e.cbudget for e in entries},
                   "values": "every value whose encoding fits the bound (obtained as decode of symbolic bytes)"}
     prog = H.load_program(CRATES, regenerate=regenerate)
     chk.extra["mir_regeneration_s"] = prog.timings
